@@ -262,7 +262,7 @@ pub fn cmd_spec(r: &mut Runner, t: &[&str]) -> String {
     }
 }
 
-fn check_trace(trace: &str, nrows: usize, batch: usize, fd: usize) -> Result<(), String> {
+fn check_trace(trace: &str, nrows: usize, batch: usize, fd: usize, threads: usize) -> Result<(), String> {
     use std::collections::{BTreeMap, BTreeSet};
     let mut kv: BTreeMap<usize, usize> = BTreeMap::new();
     let mut unions: BTreeMap<usize, Vec<(usize, Vec<String>)>> = BTreeMap::new();
@@ -314,6 +314,29 @@ fn check_trace(trace: &str, nrows: usize, batch: usize, fd: usize) -> Result<(),
         if short > 1 {
             return Err(format!("generation {}: {} groups smaller than fd-limit", g, short));
         }
+        // the order in which `Sorters::results` returned the previous generation's
+        // results = the inputs of this generation's groups, in group order; the protocol
+        // model (Model/Sched.lean, `sorters_order`) says: at most `threads` ascending runs
+        {
+            let mut by_index: Vec<&(usize, Vec<String>)> = us.iter().collect();
+            by_index.sort_by_key(|x| x.0);
+            let mut order: Vec<usize> = vec![];
+            for (_, files) in by_index {
+                for f in files {
+                    let idx = f.rsplit("batch").next().and_then(|x| x.parse::<usize>().ok());
+                    match idx {
+                        Some(i) => order.push(i),
+                        None => return Err(format!("generation {}: unparsable input name {}", g, f)),
+                    }
+                }
+            }
+            if !valid_order(threads.max(1), prev.len(), &order) {
+                return Err(format!(
+                    "generation {}: results came back in the order {:?}, which {} worker(s) receiving batches in index order cannot produce",
+                    g, order, threads
+                ));
+            }
+        }
         prev = us.iter().map(|(i, _)| format!("union-gen{}-batch{}", g, i)).collect();
         g += 1;
     }
@@ -322,6 +345,30 @@ fn check_trace(trace: &str, nrows: usize, batch: usize, fd: usize) -> Result<(),
     }
     Ok(())
 }
+
+
+/// number of maximal strictly ascending runs (mirror of `Fst.Sched.runs`)
+pub fn runs(order: &[usize]) -> usize {
+    if order.is_empty() {
+        return 0;
+    }
+    1 + order.windows(2).filter(|w| !(w[0] < w[1])).count()
+}
+
+/// mirror of `Fst.Sched.validOrder`: the orders in which `Sorters::results` can
+/// hand back the results of `total` batches processed by `threads` workers
+pub fn valid_order(threads: usize, total: usize, order: &[usize]) -> bool {
+    order.len() == total && (0..total).all(|i| order.contains(&i)) && runs(order) <= threads
+}
+
+/// `sched <threads> <total> <order>`: the predicate on a given order (both sides)
+pub fn cmd_sched(t: &[&str]) -> String {
+    let threads: usize = t[1].parse().unwrap();
+    let total: usize = t[2].parse().unwrap();
+    let order: Vec<usize> = t.get(3).unwrap_or(&"").split(',').filter(|x| !x.is_empty()).map(|x| x.parse().unwrap()).collect();
+    format!("sched runs={} valid={}", runs(&order), valid_order(threads, total, &order))
+}
+
 
 fn merge_oracle(mode: &str, rows: &Kv) -> Kv {
     let mut m: BTreeMap<Vec<u8>, u64> = BTreeMap::new();
@@ -438,7 +485,7 @@ pub fn cmd_merge(r: &mut Runner, t: &[&str]) -> String {
     // consecutive batches, then generations of unions that each consume every result of
     // the previous generation exactly once in groups of at most fd-limit
     if !trace.is_empty() {
-        if let Err(e) = check_trace(&trace, rows.len(), batch.parse().unwrap(), fd.parse().unwrap()) {
+        if let Err(e) = check_trace(&trace, rows.len(), batch.parse().unwrap(), fd.parse().unwrap(), threads.parse().unwrap_or(1)) {
             r.check(false, || format!("C19 merge structure: {} :: {}", e, line));
         } else {
             r.checks += 1;
